@@ -340,7 +340,8 @@ TEXT = {
   "text": "Per-output validation of gcd / lcm / content / primitive part / extended gcd / Bezout by certificate checkers, under all three "
           "internal gcd strategies (LIBPOLY_VERIF hooks). Proved in Lean: an accepted gcd divides both operands (MvPolynomial Z); the "
           "dense-list arithmetic over Q is a ring homomorphism into Polynomial Q and an accepted Bezout certificate implies IsCoprime, "
-          "so the univariate coprimality check is sound. Greatestness is decided by (a) the constructed common factor g0 having to "
+          "so the univariate coprimality check is sound, and with coprime cofactors every common divisor divides the gcd "
+          "(C03_greatest_of_coprime, C03_greatest_univariate). For several variables greatestness is decided by (a) the constructed common factor g0 having to "
           "divide the answer, (b) coprime integer contents of the cofactors, (c) a verified Bezout identity at a specialisation that "
           "keeps a leading coefficient, for every shared variable; the step from (b)+(c) to 'no common factor' is classical and not "
           "formalised. Over Z_p: monic gcd, verified Bezout identity of the cofactors, u*p+v*q identities and degree bounds.",
